@@ -240,6 +240,17 @@ def observables(d, mean, Cint, cfg, fails):
     return ops
 
 
+def _lp_chol(d, mean):
+    with gpytorch.settings.fast_computations(log_prob=False):
+        d.log_prob(mean + 0.1)
+
+
+WARMUPS = [("variance", lambda d, m: d.variance), ("scale_tril", lambda d, m: d.scale_tril), ("log_prob(cholesky path)", _lp_chol),
+           ("log_prob(fast path)", lambda d, m: d.log_prob(m + 0.1)), ("rsample", lambda d, m: d.rsample()),
+           ("covariance_matrix", lambda d, m: d.covariance_matrix), ("to_data_independent_dist", lambda d, m: d.to_data_independent_dist()),
+           ("getitem", lambda d, m: d[..., 0, :])]
+
+
 def onehot_layout(cfg, fails):
     """rsample() WITHOUT base samples: only component (i0,a0) has non-negligible variance => sample-mean must be
     supported on (i0,a0) (owned RNG; checks layout of the internally drawn noise)"""
@@ -278,6 +289,21 @@ def run_cell(cell, seed):
         ops += observables(d, mean, Cint, cfg, fails)
         if cfg["ctor"] == "direct":
             ops += onehot_layout(cfg, fails)
+        # short histories: the same observations (and a few index expressions) on a freshly built distribution that has first served
+        # another request, which may have cached a factor / a derived tensor
+        for wname, wfn in WARMUPS:
+            nb = len(fails)
+            d2 = build(cfg, seed)[0]
+            try:
+                wfn(d2, mean)
+            except Exception:
+                continue  # the request itself is judged in the cold run above
+            ops += 1 + observables(d2, mean, Cint, cfg, fails)
+            for idx in ((Ellipsis, 0, slice(None)), (Ellipsis, slice(None), -1), (Ellipsis, slice(1, None), slice(None)), (Ellipsis, 0, 0)):
+                if check_index(d2, mean, Cint, idx, fails, feats) is not None:
+                    ops += 1
+            for f in fails[nb:]:
+                f["detail"] = f"[after {wname}] " + f.get("detail", "")
         for f in fails:
             f["features"] = feats
         return {"fails": fails, "sig": "obs:" + ",".join(sorted({f["sub"] for f in fails})), "features": feats, "ops": ops,
